@@ -234,6 +234,7 @@ func run(c Case) (pbt.Outcome, error) {
 	s := root
 	retagged := false
 	mutated := c.RootMutate != 0 && len(rootTagsBefore) > 0
+	var callerMaps [][2]map[string]string // the caller's map and a copy of how the caller left it
 	for _, st := range c.Steps {
 		if st.Sub != nil {
 			s = s.SubScope(string(*st.Sub))
@@ -265,6 +266,7 @@ func run(c Case) (pbt.Outcome, error) {
 				mutated = true
 			}
 			mutate(m, st.Mutate)
+			callerMaps = append(callerMaps, [2]map[string]string{m, copyMap(m)})
 		}
 	}
 
@@ -385,6 +387,12 @@ func run(c Case) (pbt.Outcome, error) {
 		}
 	}
 
+	// the maps stay the caller's: nothing - no pass, no snapshot - writes to them later either
+	for _, cm := range callerMaps {
+		if !sameMap(cm[0], cm[1]) {
+			errs.Addf("a map handed to Tagged was written to after the call returned: the caller left it as %v, now %v", cm[1], cm[0])
+		}
+	}
 	nonASCII := false
 	for _, str := range []string{string(c.Prefix), string(c.Sep), name} {
 		if str == "" || !utf8.ValidString(str) || len(str) != utf8.RuneCountInString(str) {
